@@ -29,6 +29,10 @@ def parseInst (spec hex : String) : Option OpInst :=
     match v.toNat?, o.toInt?, h.toInt? with
     | some v, some o, some h => some ⟨n, v, o, h, b⟩
     | _, _, _ => none
+  | [n, v, o, h, _readN], some b =>     -- fetch read only in part, then closed: same exchange for the model (any conserving reader)
+    match v.toNat?, o.toInt?, h.toInt? with
+    | some v, some o, some h => some ⟨n, v, o, h, b⟩
+    | _, _, _ => none
   | _, _ => none
 
 def showOutcome : Outcome → String
